@@ -88,7 +88,7 @@ ADD7 = {
  "C02": "fnfields phase as in C01 (the emitted Go must type-check); directed programs include methods with type parameters of their own.",
  "C03": "Ill-typed kinds also cover calls with too FEW arguments (trait methods on concrete and dyn receivers, enum variants) and every builtin called with 0-4 arguments; generic functions build and take apart arrays / Vecs / Refs / tuples of a type parameter.",
  "C05": "A tenth skeleton operation opens a curried closure `|a| |a| { .. }` (both parameters spelled alike); nested single closures are written curried half of the time.",
- "C07": "Generic functions build and take apart arrays / Vecs / Refs / tuples of a type parameter; a directed program calls methods of a generic impl that have type parameters of their own at two type arguments per receiver instance.",
+ "C07": "Generic functions build and take apart arrays / Vecs / Refs / tuples of a type parameter; a directed program calls methods of a generic impl that have type parameters of their own at two type arguments per receiver instance, and generated generic inherent methods may have one type parameter of their own. A compiler panic on a non-trivial case fails the property (as a Go text that does not build does).",
  "C08": "fnfields phase (3k / 60k programs): closures and plain functions stored in 2-4 function-typed struct fields in every mixture and order at one construction site, read back and called in main or in helpers defined after the site; the closures capture the constructor's parameters and a shared Ref cell.",
  "C10": "Operators are also applied to one variable on both sides (x / x with x = 0 must fail, x - x, x == x ..), directly and inside a helper function.",
  "C16": "Legal projects also call an `extern \"go\"` function of an imported package through the package path and use a trait whose impls for another package's types live in the trait's package, statically and as `dyn`, from a third package.",
